@@ -1,0 +1,30 @@
+//go:build verif
+
+package lungo
+
+import "sync/atomic"
+
+// This file is only compiled with the "verif" build tag. It gives an external
+// verification harness control over the points at which the engine drops its
+// locks, and over the size of the GridFS upload buffer. Without the tag the
+// hooks compile to empty functions (see verif_nohooks.go).
+
+// VerifHook, if set, is called at named points of the engine, session and
+// stream code.
+var VerifHook atomic.Pointer[func(point string)]
+
+// VerifUploadBuffer, if positive, overrides the size of the upload buffer of
+// newly opened GridFS upload streams.
+var VerifUploadBuffer atomic.Int64
+
+func verifPoint(point string) {
+	if fn := VerifHook.Load(); fn != nil {
+		(*fn)(point)
+	}
+}
+
+func verifTuneUpload(s *UploadStream) {
+	if n := VerifUploadBuffer.Load(); n > 0 {
+		s.buffer = make([]byte, n)
+	}
+}
